@@ -11,7 +11,11 @@ Per run:
       integer arguments, frozen flags exactly; T, nu, m, proportions at 1e-12; size functions by value at five times);
       the conclusion of frozen_flags_wired is evaluated on every logged integration call;
   (2) numeric invariances on the implementation (1e-9 relative to the largest entry): years vs generations, rescaling by c,
-      sampled demes in another order, ancient sample vs explicit frozen branch, hand-written native models vs from_demes;
+      sampled demes in another order, the (source, proportion) pairs of multi-source pulses listed in another order, ancient
+      sample vs explicit frozen branch, hand-written native models vs from_demes; and for EVERY graph "from_demes = the
+      equivalent native dadi model": the model's program for that graph (identity wiring; written out by Coq, dump_progs) is
+      executed call by call with dadi.PhiManip / dadi.Integration / from_phi and its spectrum compared with from_demes - so a
+      graph on which the importer's call sequence leaves the model is itself the failing input;
   (3) export round trip: random native programs (1-5 populations) run with the event log on, exported with
       dadi.Demes.output and re-imported with from_demes; programs compared call by call after relabelling, spectra at 1e-8;
       the YAML files of /repo/tests/demes.
@@ -338,8 +342,9 @@ def initial_phi_passes_nu():
         raise Refuse('_compute_sfs does not call phi_1D')
     return found
 
-def log_case_coq(c, r, wiring, pnu=False):
-    """Coq term (model program, logged program) for one log case"""
+def log_case_coq(c, r, wiring, pnu=False, native_only=False):
+    """Coq term (model program, logged program) for one log case; native_only: only ids['__native__'] (the logged calls
+    are not encoded)"""
     g = r['orig']
     names = [d['name'] for d in g['demes']]
     ids = {n: i for i, n in enumerate(names)}
@@ -355,16 +360,158 @@ def log_case_coq(c, r, wiring, pnu=False):
         new_ids.append(ids[nm])
         sizes.append(fsz.get(nm, 1.0))
     gt = 'None' if g['time_units'] == 'generations' else '(Some %s)' % q(g['generation_time'])
-    model = 'front %s %s %s %s %s %s %s %s %s %s %s' % (
-        wiring_coq(wiring), b(pnu), gt, graph_coq(g, ids), natl([ids[s] for s in sampled]),
+    tail = '%s %s %s %s %s %s %s %s %s' % (
+        gt, graph_coq(g, ids), natl([ids[s] for s in sampled]),
         'None' if c['times'] is None else '(Some %s)' % ql(c['times']), natl(new_ids), ql(sizes),
         events_coq(r['events'], ids), 'None' if c.get('Ne') is None else '(Some %s)' % q(c['Ne']), natl(c['ns']))
+    model = 'front %s %s %s' % (wiring_coq(wiring), b(pnu), tail)
+    # the model's claim of what the equivalent native dadi model is: every argument reaches the parameter of its own
+    # population (identity wiring), the ancestral population starts at the equilibrium of its own size
+    ids['__native__'] = 'front std_wirings true ' + tail
+    if native_only:
+        return None, ids
     logged = '[' + '; '.join(lcall_coq(x, ids) for x in r['calls']) + ']'
     # the same run with the identity wiring, and the ids of the frozen branches (for the conclusion of frozen_flags_wired)
     tmin = min(times)
     ids['__std__'] = ('front std_wirings' + model[len('front ' + wiring_coq(wiring)):],
                       '(%s : list nat)' % natl([ids[frozen_name(s, t)] for s, t in zip(sampled, times) if t - tmin > 0]))
     return '(%s, %s)' % (model, logged), ids
+
+# ---------------------------------------------------------------------------------------------------------------
+# the model's program as data: the equivalent native dadi model of a graph (executed by c16_impl.run_model_prog)
+
+FN_CODES = ['phi_1D', 'one_pop', 'two_pops', 'three_pops', 'four_pops', 'five_pops', 'phi_1D_to_2D', 'phi_2D_to_3D_split_1',
+            'phi_2D_to_3D_split_2', 'phi_2D_to_3D_admix', 'phi_3D_to_4D', 'phi_4D_to_5D', 'pulse', 'remove_pop', 'reorder_pops',
+            'from_phi', 'error']
+
+def parse_dump(out):
+    """{case id: [call...]} from the value printed by `Eval vm_compute in (dump_progs ...)` (Model/DemesFrontCheck.v: a flat
+    list of integers; a rational is (numerator, denominator), a list is preceded by its length)"""
+    import re
+    toks = [int(x) for x in re.findall(r'-?[0-9]+', out[out.index('='):])]
+    pos = [0]
+    def nxt():
+        v = toks[pos[0]]; pos[0] += 1
+        return v
+    def rd_q():
+        n = nxt(); d = nxt()
+        return float(Fraction(n, d))
+    def rd_list(f):
+        return [f() for _ in range(nxt())]
+    def rd_sf():
+        k = nxt(); a = rd_q(); b_ = rd_q(); T = rd_q()
+        return [['num', a], ['const', a], ['lin', a, b_, T], ['exp', a, b_, T]][k]
+    def rd_call():
+        code = nxt(); d = nxt(); k = nxt()
+        c = {'fn': FN_CODES[code], 'T': rd_q(), 'nus': rd_list(rd_sf), 'fs': rd_list(rd_q), 'fr': rd_list(lambda: bool(nxt())),
+             'ns': rd_list(nxt), 'ids': rd_list(nxt)}
+        if c['fn'] == 'pulse':
+            c['d'] = d; c['dest'] = k
+        elif c['fn'] == 'error':
+            c['code'] = d
+        return c
+    res = {}
+    while pos[0] < len(toks):
+        cid = nxt()
+        res[cid] = rd_list(rd_call)
+    return res
+
+def model_programs(ctx, items, shard):
+    """items: [(case id, Coq term of type list (call Q))] -> {case id: program as data}; fails closed"""
+    files = []
+    for k in range(0, len(items), shard):
+        chunk = items[k:k + shard]
+        body = [HEADER, '']
+        for cid, ex in chunk:
+            body.append('Definition prog_%d := %s.' % (cid, ex))
+        body.append('Eval vm_compute in (dump_progs [%s]).' % '; '.join('(%d%%Z, prog_%d)' % (cid, cid) for cid, _ in chunk))
+        files.append(('C16_native_%d' % (k // shard), '\n'.join(body) + '\n'))
+    res = lib.run_case_files(files, timeout=1500) if files else {}
+    out = {}
+    for n, (rc, so, se, secs) in sorted(res.items()):
+        if rc != 0:
+            ctx.obligation('coqc %s (the model\'s program for each graph, written out)' % n, False, 'correspondence', se[-600:])
+            continue
+        try:
+            out.update(parse_dump(so))
+        except (ValueError, IndexError) as e:
+            ctx.obligation('coqc %s: the written-out programs can be read back' % n, False, 'correspondence', repr(e))
+    ctx.checker_cmds.append('coqc -Q coq/theories Dadi build/cases/C16_native_*.v  (%d programs written out with vm_compute)' % len(items))
+    return out
+
+def model_fn_name(m):
+    return PULSES[m['d']][m['dest'] - 1] if m['fn'] == 'pulse' and m['d'] in PULSES and 1 <= m['dest'] <= m['d'] else m['fn']
+
+def first_difference(prog, calls):
+    """name of the first logged call that differs from the model's program (function, T, numeric arguments at 1e-9);
+    only used to group the failing graphs of one kind under the first one"""
+    for m, l in zip(prog, calls):
+        a = l['args']
+        if model_fn_name(m) != l['fn']:
+            return l['fn']
+        if l['fn'] in INTEG:
+            d = INTEG.index(l['fn']) + 1
+            nums = [a['T']] + ([a['m%d%d' % (x, y)] for x in range(1, d + 1) for y in range(1, d + 1) if x != y] if d > 1 else [])
+            mine = [m['T']] + m['fs']
+        elif l['fn'] in PULSE_OF or l['fn'] in ('phi_2D_to_3D_admix', 'phi_3D_to_4D', 'phi_4D_to_5D'):
+            nums = [v for kk, v in a.items() if kk.startswith('f') and kk[1:].isdigit() or kk == 'f']
+            mine = m['fs']
+        else:
+            continue
+        if len(nums) != len(mine) or any(isinstance(x, dict) or not close(x, y) for x, y in zip(nums, mine)):
+            return l['fn']
+    return 'length' if len(prog) != len(calls) else 'none'
+
+# ---------------------------------------------------------------------------------------------------------------
+# multi-source pulses: which part of the regime a resolved graph exercises (fail-closed generator coverage)
+
+PULSE_REGIME = set()
+
+def pulse_classes(orig):
+    """for every pulse of a resolved graph with >= 2 sources and pairwise different proportions:
+    (number of sources, how the sources are listed relative to the internal population order - order of appearance, ties in
+    graph order -, where the destination stands in that order, what else happens at that time, parent among the sources)"""
+    out = []
+    gi = {d['name']: i for i, d in enumerate(orig['demes'])}
+    D = {d['name']: d for d in orig['demes']}
+    for p in orig['pulses']:
+        k = len(p['sources'])
+        if k < 2 or len(set(p['proportions'])) != k:
+            continue
+        tp = p['time']
+        alive = sorted([d for d in orig['demes'] if d['start_time'] > tp >= d['end_time']], key=lambda d: (-d['start_time'], gi[d['name']]))
+        order = [d['name'] for d in alive]
+        if p['dest'] not in order or any(x not in order for x in p['sources']):
+            continue
+        idx = [order.index(x) for x in p['sources']]
+        listing = 'population order' if idx == sorted(idx) else 'reverse order' if idx == sorted(idx, reverse=True) else 'another order'
+        di = order.index(p['dest'])
+        pos = 'older than' if di < min(idx) else 'younger than' if di > max(idx) else 'between'
+        same = []
+        if sum(1 for x in orig['pulses'] if x['time'] == tp) > 1:
+            same.append('a second pulse')
+        if any(d['start_time'] == tp for d in orig['demes']):
+            same.append('a deme starts')
+        if any(e['end_time'] == tp for d in alive for e in d['epochs']):
+            same.append('an epoch ends')
+        if any(tp in (m['start_time'], m['end_time']) for m in orig['migrations']):
+            same.append('a migration starts or ends')
+        out.append({'nsrc': min(k, 3), 'listing': listing, 'dest': pos, 'same': same or ['nothing else'],
+                    'parent': any(a in p['sources'] for a in D[p['dest']]['ancestors']), 'bystander': len(order) > k + 1})
+    return out
+
+PULSE_NEED = [('%d sources listed in %s' % (k, l)) for k in (2, 3) for l in ('population order', 'reverse order')] + \
+             ['3 sources listed in another order'] + ['destination %s the sources' % x for x in ('older than', 'younger than', 'between')] + \
+             ['at the pulse time: %s' % x for x in ('nothing else', 'a second pulse', 'a deme starts', 'an epoch ends', 'a migration starts or ends')] + \
+             ['the destination\'s parent is a source', 'a deme alive that is neither source nor destination']
+
+def note_pulse_regime(ctx, orig):
+    for pc in pulse_classes(orig):
+        keys = ['%d sources listed in %s' % (pc['nsrc'], pc['listing']), 'destination %s the sources' % pc['dest']] + \
+               ['at the pulse time: %s' % x for x in pc['same']] + (['the destination\'s parent is a source'] if pc['parent'] else []) + \
+               (['a deme alive that is neither source nor destination'] if pc['bystander'] else [])
+        for k in keys:
+            PULSE_REGIME.add(k); ctx.count('multi-source pulse: ' + k)
 
 # ---------------------------------------------------------------------------------------------------------------
 # small helpers on spectra / Builder data
@@ -539,7 +686,7 @@ def family_cases(ctx):
     out = []
     for rep in range(ctx.pick(1, 4)):
         rng = random.Random('C16-families-%d-%d' % (ctx.seed, rep))
-        for c in G.slice_family(rng) + G.boundary_family(rng):
+        for c in G.slice_family(rng) + G.boundary_family(rng) + G.pulse_family(rng, rep):
             c['ns'] = [rng.randint(2, 3) if c['maxd'] <= 3 else 2 for _ in c['sampled']]
             c['pts'] = PTS[c['maxd']]
             out.append(c)
@@ -801,6 +948,18 @@ def numeric_jobs(ctx, c, r, info):
             rng.shuffle(perm)
         j = dict(base, sampled=[sampled[i] for i in perm], ns=[ns[i] for i in perm], times=None if times is None else [times[i] for i in perm])
         jobs.append(('order:%s' % perm, j, perm, None))
+    # the (source, proportion) pairs of every multi-source pulse listed in another order: the same pulse
+    multi = [p for p in graph.get('pulses', []) if len(p['sources']) >= 2]
+    if multi:
+        import copy
+        for name in ('reverse', 'rotated'):
+            if name == 'rotated' and not any(len(p['sources']) >= 3 for p in multi):
+                continue
+            g2 = copy.deepcopy(graph)
+            for p in g2['pulses']:
+                p['sources'] = G.listing_of(name, p['sources']); p['proportions'] = G.listing_of(name, p['proportions'])
+            # the key only groups the further failing graphs under the first one (not a known finding)
+            jobs.append(('pulse-listing:%s' % name, dict(base, graph=g2), None, 'pulse-listing:%s-order-changes-the-spectrum' % name))
     # ancient samples as explicit frozen branches (reference: flags decided by label, slicing done by hand)
     if info['ancient'] and 'orig' in r:
         ends = {d['name']: d['end_time'] for d in r['orig']['demes']}
@@ -858,17 +1017,25 @@ def run(ctx):
                 'inside / exactly at its end x followed by an epoch / extinction / a split x 1-3 demes alive, each with a hand-written '
                 'native program) and the boundary family (slice or sample time equal to an epoch boundary, a deme start / end, a pulse '
                 'time, a migration boundary; migration intervals starting, ending, inside, across and after the slice time; growth epochs '
-                'of non-sampled ancestors through the slice time; frozen branches created at such times); DemesUtil.slice on its own '
+                'of non-sampled ancestors through the slice time; frozen branches created at such times) and the pulse family (one pulse '
+                'with 2 or 3 sources and pairwise different proportions among 3 or 4 demes: destination oldest / in the middle / youngest '
+                'x sources listed in population order / reverse / rotated x nothing else, an epoch boundary, migration boundaries, a '
+                'branch, a second multi-source pulse at the pulse time; bystander demes; destination\'s parent among the sources; each '
+                'with a hand-written native program); DemesUtil.slice on its own '
                 'for every graph at its own slice time and at times chosen per class (inside / at the end of growth epochs, epoch '
                 'boundaries, pulse and migration times, deme starts), '
                 'hand-written native models and the YAML files of tests/demes; numeric variants (units, rescale, order, explicit '
-                'frozen branches) of every case; export cases = random native programs of 1-5 populations; distinct = distinct '
+                'frozen branches, pulse pairs listed in another order) of every case and the model\'s program of every case executed as '
+                'a native dadi model; export cases = random native programs of 1-5 populations plus fixed ones (4-D / 5-D pulses; '
+                'reorder_pops followed by a multi-source pulse with different fractions); distinct = distinct '
                 '(graph, sampling spec) / program; non-trivial = at least one integration with >= 2 populations or an event')
     ctx.assumptions += ['the `demes` package (0.2.3) is the oracle for graph resolution, discrete_demographic_events and in_generations',
                         'model and logged arguments are compared at 1e-12 relative (float64 arithmetic of the importer vs exact rationals; '
                         'exp/ln to 2^-100 on the Q side); size functions are compared by value at t = 0, T/4, T/2, 3T/4, T',
                         'numeric invariances at 1e-9 and the export round trip at 1e-8 relative to the largest spectrum entry, one grid size, '
                         'default timescale_factor: both sides execute the same program up to rounding of T, so the time steps coincide',
+                        'the equivalent native model of a graph is the Coq model\'s program for it (front std_wirings true ...): rationals are '
+                        'rounded to the nearest float, size functions are the closures a + t/T*b and a*r**(t/T) of the model\'s (a, b | r, T)',
                         'DemesUtil.slice: the resolved sliced graph is compared number by number with the model at 1e-12, its Deme.size_at and '
                         'migration rates at probe times with those of the input graph at 1e-12 (the reference is the `demes` package itself)',
                         'where the current source deviates in a known input class (linear epoch cut by DemesUtil.slice, renamed deme with '
@@ -928,7 +1095,7 @@ def log_phase(ctx, cases, wiring, pnu, bad_frozen):
     res = impl_chunks('log', [strip(c) for c in cases])
     lap(ctx, 'impl log runs (%d cases)' % len(cases))
     byid = {r['id']: r for r in res}
-    exprs = []; refusals = []; meta = {}; frz_exprs = []
+    exprs = []; refusals = []; meta = {}; frz_exprs = []; native_exprs = []; unencodable = {}
     infos = {}
     flagged = {}          # case id -> key of a known-class deviation already attributed
     for c in cases:
@@ -1016,10 +1183,17 @@ def log_phase(ctx, cases, wiring, pnu, bad_frozen):
             ex, ids = log_case_coq(c, r, wiring, pnu)
         except KeyError as e:
             ctx.obligation('case %d: logged program can be encoded' % c['id'], False, 'correspondence', repr(e))
-            ctx.violation('the importer made a call outside the modelled numerical layer: %r' % (e,), data={'kind': 'log', 'case': strip(c)},
-                          no_input=True, broken='call-log correspondence')
+            try:
+                # the property clause is still evaluated on this graph: from_demes against the model's native program
+                _, ids = log_case_coq(c, r, wiring, pnu, native_only=True)
+                native_exprs.append((c['id'], ids['__native__'])); meta[c['id']] = (c, r); unencodable[c['id']] = e
+            except KeyError:
+                ctx.violation('the importer made a call outside the modelled numerical layer: %r' % (e,), data={'kind': 'log', 'case': strip(c)},
+                              no_input=True, broken='call-log correspondence')
             continue
         exprs.append((c['id'], ex)); meta[c['id']] = (c, r)
+        native_exprs.append((c['id'], ids['__native__']))
+        note_pulse_regime(ctx, r['orig'])
         if info['ancient']:
             frz_exprs.append((c['id'], '(%s, %s)' % ids['__std__']))
     results = ctx.coq_cases('log', HEADER, exprs, '(check_prog %s)' % q(TOL), 'tol 1e-12 relative per argument', shard=ctx.pick(8, 12), timeout=1500)
@@ -1031,6 +1205,9 @@ def log_phase(ctx, cases, wiring, pnu, bad_frozen):
             ok = cid in fres and fres[cid][0]
             ctx.obligation('log case %d: conclusion of frozen_flags_wired on the model program (identity wiring, Q instance)' % cid, ok, 'correspondence')
     lap(ctx, 'coq frozen-flag conclusions')
+    # the model's program of every graph, written out: the equivalent native dadi model, to be executed below
+    mprogs = model_programs(ctx, native_exprs, ctx.pick(8, 12))
+    lap(ctx, 'coq model programs written out (%d)' % len(native_exprs))
     mismatch = {}
     for cid, ex in exprs:
         c, r = meta[cid]
@@ -1056,6 +1233,7 @@ def log_phase(ctx, cases, wiring, pnu, bad_frozen):
     # ---- property predicates on the implementation for every case
     ncases = []
     plan = {}
+    native_ids = {cid for cid, _ in native_exprs}
     for c in cases:
         r = byid[c['id']]
         if 'error' in r or 'fs' not in r:
@@ -1072,6 +1250,15 @@ def log_phase(ctx, cases, wiring, pnu, bad_frozen):
                             nm = [n for n in fsz if '_sampled_' in n]
                             sf[1] = (fsz[nm[0]] if nm else 1.0) / NeV
             jobs.append(('native:' + c['tag'], {'kind': 'native', 'ops': ops, 'ns': c['ns'], 'pts': c['pts'], 'all_funcs': True}, None, None))
+        # "equals the spectrum of the equivalent hand-written dadi model", per graph: the model's program for THIS graph
+        # (identity wiring) executed call by call with dadi.PhiManip / dadi.Integration, against from_demes
+        if c['id'] in meta and c['id'] in native_ids:
+            prog = mprogs.get(c['id'])
+            okp = prog is not None and not any(x['fn'] == 'error' for x in prog)
+            ctx.obligation('case %d: the model gives a native program for this graph' % c['id'], okp, 'correspondence',
+                           '' if okp else ('no program read back' if prog is None else 'the model refuses: %r' % [x.get('code') for x in prog if x['fn'] == 'error']))
+            if okp:
+                jobs.append(('model-native', {'kind': 'prog', 'calls': prog, 'pts': c['pts']}, None, None))
         plan[c['id']] = jobs
         ncases.append({'id': c['id'], 'jobs': [j for _, j, _, _ in jobs]})
     nres = impl_chunks('numeric', ncases, size=20)
@@ -1105,12 +1292,17 @@ def log_phase(ctx, cases, wiring, pnu, bad_frozen):
             known = None
             if not ok:
                 failing.add(c['id'])
-                if r.get('_frozen_bad') and kind in ('ancient-as-explicit-frozen-branch', 'native'):
+                if r.get('_frozen_bad') and kind in ('ancient-as-explicit-frozen-branch', 'native', 'model-native'):
                     known = r['_frozen_bad'][1]
                 elif key is not None:
                     known = key
-                elif kind == 'native' and c.get('Ne') is not None and not pnu:
+                elif kind in ('native', 'model-native') and c.get('Ne') is not None and not pnu:
                     known = 'compute_sfs:initial-phi-ignores-root-size'
+                elif kind == 'model-native' and c['id'] in mismatch and mismatch[c['id']][1]:
+                    known = mismatch[c['id']][1]
+                elif kind == 'model-native' and not infos[c['id']]['slice_class']:
+                    # not a known finding: groups the further failing graphs of one kind under the first one
+                    known = 'equivalent-native-program:first-differing-call-%s' % first_difference(job['calls'], r['calls'])
                 elif infos[c['id']]['slice_class']:
                     # not a known finding: groups the further failing inputs of one input class under the first one
                     known = 'all-samples-ancient:%s:%s' % (infos[c['id']]['slice_class'], kind)
@@ -1123,7 +1315,14 @@ def log_phase(ctx, cases, wiring, pnu, bad_frozen):
                         'rescale': 'the same demography relative to another reference size (sizes, times x c, rates / c, Ne x c) gives a different spectrum',
                         'order': 'listing the sampled demes in another order does not just permute the axes',
                         'ancient-as-explicit-frozen-branch': 'an ancient sample differs from the explicit frozen branch',
-                        'native': 'the hand-written native dadi model differs from from_demes'}[kind]
+                        'native': 'the hand-written native dadi model differs from from_demes',
+                        'pulse-listing': 'listing the (source, proportion) pairs of a pulse in another order gives a different spectrum',
+                        'model-native': 'from_demes differs from the equivalent native dadi model of this graph (the model\'s program: '
+                                        'phi_1D / split / admix / pulse / integrate calls with their arguments, executed with '
+                                        'dadi.PhiManip and dadi.Integration)%s' % (
+                                            '; the importer\'s own call sequence differs from it (coq %r)' % (mismatch[c['id']][0],)
+                                            if c['id'] in mismatch else
+                                            '; the importer made a call outside the modelled numerical layer' if c['id'] in unencodable else '')}[kind]
                 ctx.violation('%s (%s; deviation %s of the largest entry; sampled=%r times=%r Ne=%r)' % (what, label, '%.3g' % e if e is not None else 'shape/mask', c['sampled'], c['times'], c.get('Ne')),
                               data={'kind': 'numeric', 'case': strip(c), 'variant': label, 'job': job, 'deviation': e,
                                     'frozen_flags': r.get('_frozen_bad', [None])[0]}, key=known)
@@ -1134,12 +1333,16 @@ def log_phase(ctx, cases, wiring, pnu, bad_frozen):
             bad, key = r['_frozen_bad']
             ctx.violation('integration call with %d populations: frozen flag of population %d is %r, should be %r (labels %r)'
                           % (bad[0][0], bad[0][1], bad[0][2], bad[0][3], c['sampled']), data={'kind': 'log', 'case': strip(c), 'flags': bad}, key=key)
+    for cid, e in unencodable.items():
+        if cid not in failing:
+            ctx.violation('the importer made a call outside the modelled numerical layer: %r; from_demes still equals the model\'s native '
+                          'program for this graph' % (e,), data={'kind': 'log', 'case': strip(meta[cid][0])}, no_input=True, broken='call-log correspondence')
     for cid, (rr, known) in mismatch.items():
         c, r = meta[cid]
         if cid in failing:
             continue        # a failing input of the property itself has been reported for this case
-        ctx.violation('the importer\'s call sequence differs from the model for this graph (coq %r), no invariance of the property fails on it'
-                      % (rr,), data={'kind': 'log', 'case': strip(c), 'calls': r['calls']}, key=known, no_input=True,
+        ctx.violation('the importer\'s call sequence differs from the model for this graph (coq %r); no invariance of the property fails on it '
+                      'and its spectrum equals that of the model\'s native program at 1e-9' % (rr,), data={'kind': 'log', 'case': strip(c), 'calls': r['calls']}, key=known, no_input=True,
                       broken='call-log correspondence case %d' % cid)
     # wiring obligations that failed without any case exhibiting them
     if bad_frozen and not ctx.replay and not any(byid[c['id']].get('_frozen_bad') for c in cases):
@@ -1151,6 +1354,9 @@ def log_phase(ctx, cases, wiring, pnu, bad_frozen):
         for x in need:
             ctx.obligation('generator coverage: every sample ancient and the slice cuts a non-constant epoch that ends before the present - %s %s'
                            % x, x in REGIME, 'harness', '' if x in REGIME else 'no generated case reached this part of the regime')
+        for x in PULSE_NEED:
+            ctx.obligation('generator coverage: a pulse with several sources and pairwise different proportions - %s' % x,
+                           x in PULSE_REGIME, 'harness', '' if x in PULSE_REGIME else 'no generated case reached this part of the regime')
     lap(ctx, 'log phase rest')
     return {c['id']: byid[c['id']]['orig'] for c in cases if 'orig' in byid[c['id']]}
 
@@ -1317,7 +1523,45 @@ def forced_programs():
     base5 = base4 + [['split', 3], ['integrate', 0.0625, sf(5), None, None]]
     for dest in (1, 2, 3, 4, 5):
         out.append((base5 + [['pulse', dest, [0.125, 0.0, 0.25, 0.0]], ['integrate', 0.03125, sf(5), None, None]], 5, 'forced-5D-pulse-into-%d' % dest))
+    return out + reorder_pulse_programs()
+
+def reorder_pulse_programs():
+    """reorder_pops, then a pulse with several sources and pairwise different non-zero fractions: the exported pulse lists its
+    sources in the program's order, which is no longer the order in which the populations appeared.  Every non-identity
+    order of three populations (destination rotating), and four populations with three sources."""
+    out = []
+    sf = lambda d, k=0: [['c', 1.0 + 0.5 * ((i + k) % d)] for i in range(d)]
+    base3 = [['phi_1D', 1.0], ['integrate', 0.125, sf(1), None, None], ['split', 1], ['integrate', 0.125, sf(2), [[0.0, 0.5], [0.0, 0.0]], None],
+             ['split', 1], ['integrate', 0.0625, sf(3), [[0.0, 0.0, 0.25], [0.0, 0.0, 0.0], [0.5, 0.0, 0.0]], None]]
+    for k, order in enumerate([o for o in itertools.permutations((1, 2, 3)) if o != (1, 2, 3)]):
+        # a destination for which the two sources are then listed against the order in which they appeared
+        dest = [d_ for d_ in ((k + j) % 3 + 1 for j in range(3)) if [o for i, o in enumerate(order) if i != d_ - 1] != sorted(o for i, o in enumerate(order) if i != d_ - 1)][0]
+        out.append((base3 + [['reorder', list(order)], ['pulse', dest, [0.125, 0.3125] if k % 2 == 0 else [0.25, 0.0625]],
+                             ['integrate', 0.0625, sf(3, k), None, None]], 3, 'forced-reorder-%s-then-two-source-pulse-into-%d' % (''.join(map(str, order)), dest)))
+    base4 = base3 + [['split', 2], ['integrate', 0.0625, sf(4), None, None]]
+    for k, order in enumerate([(4, 3, 2, 1), (2, 3, 4, 1), (3, 1, 4, 2)]):
+        dest = [2, 1, 1][k]
+        out.append((base4 + [['reorder', list(order)], ['pulse', dest, [0.0625, 0.25, 0.125]], ['integrate', 0.0625, sf(4, k), None, None]], 4,
+                    'forced-reorder-%s-then-three-source-pulse-into-%d' % (''.join(map(str, order)), dest)))
     return out
+
+def reorder_before_multi_source_pulse(ops):
+    """does the program reorder its populations (to another order than that of their appearance) before a pulse with
+    several sources and pairwise different non-zero fractions?"""
+    pos = []
+    for op in ops:
+        if op[0] == 'phi_1D': pos = [0]
+        elif op[0] in ('split', 'admix_new'): pos.append(len(pos))
+        elif op[0] == 'remove':
+            p_ = pos[op[1] - 1]; del pos[op[1] - 1]; pos = [x - 1 if x > p_ else x for x in pos]
+        elif op[0] == 'reorder': pos = [pos[o - 1] for o in op[1]]
+        elif op[0] == 'pulse':
+            nz = [f for f in op[2] if f != 0]
+            src = [pos[i] for i in range(len(pos)) if i != op[1] - 1]
+            src = [x for x, f in zip(src, op[2]) if f != 0]
+            if len(nz) >= 2 and len(set(nz)) == len(nz) and src != sorted(src):
+                return True
+    return False
 
 def close(a, b, tol=1e-9):
     return a == b or abs(a - b) <= tol * max(abs(a), abs(b))
@@ -1449,7 +1693,7 @@ def export_phase(ctx, progs, pulses_bad, pnu):
             progs.append({'ops': ops, 'ns': [rng.randint(1, 3 if d <= 3 else 2) for _ in range(d)], 'pts': {1: 14, 2: 12, 3: 9, 4: 6, 5: 5}[maxd],
                           'Nref': rng.choice([8.0, 16.0, 100.0, 1000.0]), 'gen_time': rng.choice([None, None, 25.0]), 'tag': 'random'})
         for ops, d, tag in forced_programs():
-            progs.append({'ops': ops, 'ns': [1] * d, 'pts': {4: 6, 5: 5}[d], 'Nref': 8.0, 'gen_time': None, 'tag': tag})
+            progs.append({'ops': ops, 'ns': [2 if d == 3 else 1] * d, 'pts': {3: 9, 4: 6, 5: 5}[d], 'Nref': 8.0, 'gen_time': None, 'tag': tag})
         for f, sampled, ns, pts in YAMLS:
             progs.append({'yaml': os.path.join(TESTS_DEMES, f), 'sampled': sampled, 'ns': ns, 'pts': pts, 'tag': 'yaml:' + f,
                           'Nref': {'bottleneck.yaml': 1e4, 'browning_america.yaml': 7310, 'gutenkunst_ooa.yaml': 7300, 'linear_size_function_example.yaml': 100,
@@ -1460,6 +1704,12 @@ def export_phase(ctx, progs, pulses_bad, pnu):
     for p in progs:
         if p.get('ops') is not None:
             p['ops_norm'] = G.normalize_program(p['ops'])
+    if not ctx.replay:
+        nrp = sum(1 for p in progs if p.get('ops') is not None and reorder_before_multi_source_pulse(p['ops']))
+        ctx.count('export: reorder_pops before a multi-source pulse with different fractions', nrp)
+        ctx.obligation('generator coverage: export programs that reorder the populations before a pulse with several sources and '
+                       'pairwise different fractions (sources then listed in another order than the populations appeared)', nrp >= 6, 'harness',
+                       '%d programs' % nrp)
     lap(ctx, 'export generation')
     res = impl_chunks('export', progs, size=30)
     lap(ctx, 'impl export runs (%d programs)' % len(progs))
